@@ -5,6 +5,8 @@
 import NdnVerif.C15.Lemmas
 import NdnVerif.C15.LemmasFetch
 import NdnVerif.C15.LemmasBolt
+import NdnVerif.C15.LemmasMemStore
+import NdnVerif.C15.LemmasBoltStore
 namespace Ndn.C15
 
 /-! ### Produce: segmentation -/
@@ -302,5 +304,120 @@ theorem publish_retrieve_roundtrip (name : Name) (ver : Nat) (bufs : List Bytes)
   have := fetch_any_order (name ++ [verComp ver]) (segments bufs) order hs (segments_nonempty bufs hlast) hmax hperm
   obtain ⟨h1, h2, h3, h4, _, _⟩ := this
   exact ⟨by rw [← segments_concat bufs]; exact h1, h2, h3, h4⟩
+
+/-! ### stores over whole histories: exactly the packets Put and not Removed -/
+
+/-- MEMORY store, every history of Put / Remove(exact|prefix) / transaction(Begin, Put*, Commit): the trie is
+    well formed (distinct child keys) and holds at every name exactly what the abstract content
+    `contents ops` holds (last Put wins, Remove exact deletes the name, Remove prefix deletes every name
+    under it) — pruning of emptied nodes and the merge of a transaction trie included -/
+theorem mem_store_exact (ops : List SOp) :
+    (memRun ops).WF ∧ ∀ nm, (memRun ops).lookup nm = contents ops nm :=
+  memRel_run ops
+
+/-- TLV keys: for names whose component types and value lengths fit uint64, the encoded key is injective
+    and `encKey q` is a byte-prefix of `encKey nm` iff `q` is a component-prefix of `nm` -/
+theorem key_prefix_is_name_prefix (q nm : Name) (hq : NameWF q) (hn : NameWF nm) :
+    ((encKey q).isPrefixOf (encKey nm) = true ↔ pfxOf q nm = true) ∧ (encKey q = encKey nm → q = nm) :=
+  ⟨encKey_prefix_iff q nm hq hn, encKey_inj q nm hq hn⟩
+
+/-- BOLT store model, every history (names within Go's value ranges): the key list is strictly sorted and
+    its entries are exactly `{(encKey nm, ver, pkt) | contents ops nm = some (ver, pkt)}` -/
+theorem bolt_store_exact (ops : List SOp) (hw : ∀ op ∈ ops, op.WF) :
+    BSorted (boltRun ops) ∧
+    (∀ e ∈ boltRun ops, ∃ nm, e.key = encKey nm ∧ contents ops nm = some (e.ver, e.pkt)) ∧
+    (∀ nm v p, contents ops nm = some (v, p) → ∃ e ∈ boltRun ops, e.key = encKey nm ∧ e.ver = v ∧ e.pkt = p) :=
+  let h := boltRel_run ops hw
+  ⟨h.sorted, h.sound, h.complete⟩
+
+def exOps : List SOp :=
+  [.put ⟨[⟨8, [1]⟩, ⟨8, [1]⟩], 5, exPkt 1⟩, .tx [⟨[⟨8, [1]⟩, ⟨8, [2]⟩], 3, exPkt 2⟩, ⟨[⟨8, [2]⟩], 9, exPkt 3⟩],
+   .remove [⟨8, [2]⟩] true, .put ⟨[⟨8, [1]⟩, ⟨8, [3]⟩], 0, exPkt 4⟩]
+
+example : ∀ op ∈ exOps, op.WF := by
+  intro op hop
+  simp only [exOps, List.mem_cons, List.mem_nil_iff, or_false] at hop
+  rcases hop with rfl | rfl | rfl | rfl <;> simp [SOp.WF, NameWF, CompWF]
+
+example : contents exOps [⟨8, [1]⟩, ⟨8, [2]⟩] = some (3, exPkt 2) ∧ contents exOps [⟨8, [2]⟩] = none := by
+  constructor <;> simp [exOps, contents, Content.apply, Content.put, Content.remove, pfxOf]
+
+/-- MEMORY store after any history, in terms of the abstract content: exact Get = content; prefix Get
+    answers with the exact packet if there is one, otherwise with a packet stored under the prefix whose
+    version is maximal among ALL names of the content under the prefix — and with nothing iff the content
+    has no name under the prefix -/
+theorem newest_version_selected_mem_history (ops : List SOp) (name : Name) :
+    memGet (memRun ops) name false = (contents ops name).map (·.2) ∧
+    (∀ v p, contents ops name = some (v, p) → memGet (memRun ops) name true = some p) ∧
+    (contents ops name = none →
+      (∀ p, memGet (memRun ops) name true = some p → ∃ v, NewestUnder (contents ops) name v p) ∧
+      (memGet (memRun ops) name true = none ↔ NoneUnder (contents ops) name)) := by
+  obtain ⟨hwf, hex⟩ := mem_store_exact ops
+  cases hf : (memRun ops).find name with
+  | none =>
+    have hnone : ∀ rest, contents ops (name ++ rest) = none := fun rest => by
+      rw [← hex]; exact lookup_append_none _ name rest hf
+    have h0 : contents ops name = none := by simpa using hnone []
+    refine ⟨by simp [memGet, hf, h0], ?_, ?_⟩
+    · intro v p h; rw [h0] at h; cases h
+    · intro _
+      refine ⟨by simp [memGet, hf], ?_⟩
+      simp only [memGet, hf, true_iff]
+      intro nm hnm
+      obtain ⟨rest, rfl⟩ := (pfxOf_iff name nm).mp hnm
+      exact hnone rest
+  | some node =>
+    have hlk : ∀ rest, contents ops (name ++ rest) = node.lookup rest := fun rest => by
+      rw [← hex]; exact lookup_append _ node name rest hf
+    have h0 : contents ops name = node.wire.map fun p => (node.ver, p) := by
+      have := hlk []
+      cases node with | mk w v kids => simpa [lookup_nil, MNode.wire, MNode.ver] using this
+    have hnwf := wf_find _ name node hwf hf
+    have hsel := newest_version_selected_mem (memRun ops) node name hf
+    refine ⟨?_, ?_, ?_⟩
+    · rw [h0]; simp only [memGet, hf]; cases hw : node.wire <;> simp [hw]
+    · intro v p h
+      rw [h0] at h
+      cases hw : node.wire with
+      | none => simp [hw] at h
+      | some q => simp [hw] at h; rw [← h.2]; exact hsel.1 q hw
+    · intro hc
+      have hw : node.wire = none := by
+        rw [h0] at hc; cases hq : node.wire with
+        | none => rfl
+        | some q => simp [hq] at hc
+      obtain ⟨h1, h2, h3⟩ := hsel.2 hw
+      have hentry : ∀ e, e ∈ node.entries ↔ ∃ rest, contents ops (name ++ rest) = some e := by
+        intro e
+        constructor
+        · intro he
+          obtain ⟨rest, hr⟩ := lookup_of_entries node hnwf e he
+          exact ⟨rest, by rw [hlk, hr]⟩
+        · rintro ⟨rest, hr⟩
+          rw [hlk] at hr
+          exact entries_of_lookup node rest e hr
+      constructor
+      · intro p hp
+        obtain ⟨v, hv, hmax⟩ := h1 p hp
+        obtain ⟨rest, hr⟩ := (hentry (v, p)).mp hv
+        refine ⟨v, name ++ rest, pfxOf_append name rest, hr, ?_⟩
+        intro nm' v' p' hnm' hc'
+        obtain ⟨rest', rfl⟩ := (pfxOf_iff name nm').mp hnm'
+        exact hmax (v', p') ((hentry (v', p')).mpr ⟨rest', hc'⟩)
+      · constructor
+        · intro hnone nm hnm
+          obtain ⟨rest, rfl⟩ := (pfxOf_iff name nm).mp hnm
+          cases hcn : contents ops (name ++ rest) with
+          | none => rfl
+          | some e =>
+            have hmem := (hentry e).mpr ⟨rest, hcn⟩
+            have := h2 (List.ne_nil_of_mem hmem)
+            rw [hnone] at this; cases this
+        · intro hno
+          apply h3
+          apply List.eq_nil_iff_forall_not_mem.mpr
+          intro e he
+          obtain ⟨rest, hr⟩ := (hentry e).mp he
+          rw [hno (name ++ rest) (pfxOf_append name rest)] at hr; cases hr
 
 end Ndn.C15
